@@ -64,5 +64,5 @@ ApplyAndReadsAlwaysEnabled ==
   /\ ENABLED Do([Rq0 EXCEPT !.op = "nodeinfo"])
 RefinesEmbedded == [][EmbeddedStep(ValidBatches)]_evars
 ReplOK == repl \in {"running", "stopped", "none"} /\ (repl = "none" <=> Role = "standalone")
-Inv == ReplOK /\ TypeOK /\ Mutex /\ NoWriterOnReplica /\ TableOK /\ ScanSound /\ ApplyAndReadsAlwaysEnabled
+Inv == ReplOK /\ TypeOK /\ Mutex /\ TableOK /\ ScanSound /\ ApplyAndReadsAlwaysEnabled
 =============================================================================
